@@ -299,6 +299,7 @@ class Report:
         payload = dict(payload)
         payload.setdefault("property", self.prop)
         payload.setdefault("seed", self.seed)
+        payload.setdefault("tier", self.tier)
         payload.setdefault("cmd", "./check %s --replay %s" % (self.prop, name))
         with open(os.path.join(VERIF, name), "w") as fh:
             json.dump(payload, fh, indent=1, default=str)
